@@ -174,6 +174,9 @@ func checkC02(r *evid.Run) {
 	r.Set("rule", "every sequence of at most MaxLines lines over the 16-line pool (well-formed items in two units and three bullets, a heading, blank lines, and one representative per malformation class), each run through text (both generators), JSON, YAML and walk; non-trivial = at least 2 lines and a root")
 	injectMalformations = injectC02
 	traceDocs(r, "C02", traceSpecC02)
+	big := traceSpecBig // several KiB, 0-2 malformations somewhere in them
+	big.Malform = true
+	traceDocs(r, "C02", big)
 }
 
 // injectC02 injects 0..2 malformations of the statement's classes at random positions.
